@@ -255,7 +255,51 @@ def run_once(plan, lp, traced):
     return obs
 
 
-def classify_hook(entry):
+_CONTAINERS = (list, tuple, set, dict, frozenset)
+
+
+def _meta_nested(v, depth=0):
+    """MI (instance or class) inside a builtin container, or the class object MI itself: get_type builds a
+    typing object over the class (List[MI], Type[MI], ...), which hashes it."""
+    if v is TW.MI:
+        return True
+    t = type(v)
+    if depth > 6 or not any(t is c for c in _CONTAINERS) and t.__name__ != "defaultdict":
+        return False
+    if t is dict or t.__name__ == "defaultdict":
+        return any(type(k) is TW.MI or _meta_nested(k, depth + 1) or type(x) is TW.MI or _meta_nested(x, depth + 1) for k, x in dict.items(v))
+    return any(type(x) is TW.MI or _meta_nested(x, depth + 1) for x in v)
+
+
+def meta_hooks_explained(journal, lp):
+    """Where the unchanged tree can reach a user metaclass's __hash__/__eq__ (known finding F6c): the class sits inside a
+    typing object the tracer builds (container element, Type[C], a Union of yield types), or an instance / the class is the
+    first positional argument of a call, which function lookup hands to inspect.getattr_static (hashes the MRO).  An
+    instance that is only ever a non-first top-level argument or a top-level return value is typed as `type(obj)` and
+    nothing hashes or compares the class: metaclass hooks in such a run have no listed explanation."""
+    for rec in journal:
+        k = rec[0]
+        if k == "E":
+            f = lp.funcs.get(rec[2])
+            first = None
+            if f and f["params"] and f["params"][0]["k"] in ("po", "pk"):
+                first = f["params"][0]["n"]
+            for n, x in rec[3].items():
+                if _meta_nested(x) or (type(x) is TW.MI and (n == first or f is None)):
+                    return True
+        elif k == "R":
+            if _meta_nested(rec[2]):
+                return True
+        elif k == "Y":
+            if type(rec[2]) is TW.MI or _meta_nested(rec[2]):
+                return True
+        elif k == "B":
+            if type(rec[3]) is TW.MI or _meta_nested(rec[3]):
+                return True
+    return False
+
+
+def classify_hook(entry, meta_explained=True):
     """Cause classifier for one hook invocation the tracer caused (known findings F6)."""
     oid, hook, detail = entry
     if hook in ("GA.__getattribute__", "CP.__class__") and (detail in ("__class__", None)):
@@ -265,7 +309,7 @@ def classify_hook(entry):
     if hook == "GA.__getattribute__" and detail in ("__code__", "__wrapped__"):
         # a GA object is not callable: _has_code is reached for it only as a class found in globals... never
         return None
-    if hook in ("Meta.__eq__", "Meta.__hash__"):
+    if hook in ("Meta.__eq__", "Meta.__hash__") and meta_explained:
         return "metaclass_eq_hash_via_typing"
     return None
 
@@ -319,8 +363,10 @@ def execute(plan):
     if A["mat_hj"] != B["mat_hj"]:
         extra = extra + [("materialisation", "differs", None)]
     seen_causes = set()
+    # without a code filter the tracer also types the arguments of the simulator's own frames, which carry every materialised value
+    meta_explained = True if plan["filter"] == "none" or not any(e[1].startswith("Meta.") for e in extra) else meta_hooks_explained(B["journal"], lp)
     for e in extra:
-        cause = classify_hook(e)
+        cause = classify_hook(e, meta_explained)
         key = (cause, e[1] if cause is None else None)
         if key in seen_causes:
             continue
